@@ -40,6 +40,9 @@ std::vector<Outcome> g_script;
 size_t g_script_pos = 0;
 std::string g_trace, g_maps;
 int g_map_fd = -1;                   // descriptor whose mmap calls are logged / emulated
+bool g_src_follows_fd = false;       // serve reads from the descriptor's real file position (regular files)
+long g_mmap_fail_at = -1;             // the k-th mmap call on g_map_fd fails with ENOMEM (-1: none)
+long g_mmap_calls = 0;
 long g_fake_page = -1;               // -1: not yet looked up; 0: use the real one
 
 long fake_page() {
@@ -73,9 +76,15 @@ extern "C" ssize_t read(int fd, void *buf, size_t n) {
   if (oc.kind == 'X') { log_pair(g_trace, n, -2); errno = (int)oc.arg; return -1; }
   size_t m = n;
   if (oc.kind == 'S') m = std::min<size_t>(n, std::max<long>(1, oc.arg));
+  if (g_src_follows_fd) {
+    // a regular file: what read() delivers depends on where the descriptor stands (SeekOrThrow in the fall back)
+    off_t pos = lseek(fd, 0, SEEK_CUR);
+    g_src_pos = std::min<size_t>(pos < 0 ? 0 : (size_t)pos, g_src.size());
+  }
   m = std::min(m, g_src.size() - g_src_pos);
   memcpy(buf, g_src.data() + g_src_pos, m);
   g_src_pos += m;
+  if (g_src_follows_fd) lseek(fd, (off_t)g_src_pos, SEEK_SET);
   log_pair(g_trace, n, m);
   return m;
 }
@@ -84,6 +93,7 @@ extern "C" void *mmap(void *addr, size_t length, int prot, int flags, int fd, of
   if (fd < 0 || fd != g_map_fd)
     return (void *)syscall(SYS_mmap, addr, length, prot, flags, fd, offset);
   log_pair(g_maps, offset, length);
+  if (g_mmap_calls++ == g_mmap_fail_at) { errno = ENOMEM; return MAP_FAILED; }
   if (fake_page() <= 0)
     return (void *)syscall(SYS_mmap, addr, length, prot, flags, fd, offset);
   // emulation with a fake page size: same failure for length 0 as the kernel
@@ -142,7 +152,7 @@ std::string Drive(util::FilePiece &f, char delim, bool cr, int api) {
 }
 
 std::string RunCase(const std::vector<std::string> &t) {
-  g_trace.clear(); g_maps.clear(); g_fd = -1; g_map_fd = -1; g_script_pos = 0; g_src_pos = 0;
+  g_trace.clear(); g_maps.clear(); g_fd = -1; g_map_fd = -1; g_script_pos = 0; g_src_pos = 0; g_src_follows_fd = false;
   if (t.size() < 7) return "?";
   std::size_t min_buffer = strtoul(t[2].c_str(), NULL, 10);
   char delim = (char)atoi(t[3].c_str());
@@ -164,7 +174,9 @@ std::string RunCase(const std::vector<std::string> &t) {
       std::istringstream is(Unhex(t[6]));
       util::FilePiece f(is, "hx", min_buffer);
       return Drive(f, delim, cr, api);
-    } else if (t[0] == "M" && t.size() == 9) {
+    } else if (t[0] == "M" && (t.size() == 9 || t.size() == 10)) {
+      g_mmap_calls = 0;
+      g_mmap_fail_at = (t.size() == 10 && t[9][0] == 'F') ? atol(t[9].c_str() + 1) : -1;
       std::string file = Unhex(t[6]);
       const char *dir = getenv("HX_TMPDIR");
       std::string tmpl = std::string(dir ? dir : "/var/tmp") + "/hx_filepiece_XXXXXX";
@@ -184,7 +196,8 @@ std::string RunCase(const std::vector<std::string> &t) {
       lseek(fd, off, SEEK_SET);
       // reads on this descriptor (only after a fall back) follow the script and
       // deliver the file from its current offset
-      g_src = file.substr(std::min<size_t>(off, file.size()));
+      g_src = file;
+      g_src_follows_fd = true;
       g_script = ParseScript(t[8]);
       g_fd = fd;
       g_map_fd = fd;
